@@ -6,6 +6,7 @@ import (
 	"fmt"
 	"io/fs"
 	"os"
+	"time"
 
 	"github.com/avfs/avfs"
 
@@ -114,9 +115,20 @@ func runMisc(mc miscCall) string {
 		}()
 		mc.f()
 	})
-	v := s.Run(sched.NonPreemptive)
-	if v.Kind != "ok" {
-		return v.Kind + ":" + v.Shape + " " + v.Detail
+	// a call that blocks on a lock is decided by the scheduler; one that spins without ever
+	// touching a lock would keep the scheduler waiting for ever: these calls are path helpers and
+	// accessors (microseconds), a minute without return is an endless loop on any machine
+	done := make(chan sched.Verdict, 1)
+	go func() { done <- s.Run(sched.NonPreemptive) }()
+	select {
+	case v := <-done:
+		if v.Kind != "ok" {
+			return v.Kind + ":" + v.Shape + " " + v.Detail
+		}
+		return res
+	case <-time.After(miscPatience):
+		return "hang:loop no return within " + miscPatience.String() + " (no lock involved: the call is spinning)"
 	}
-	return res
 }
+
+var miscPatience = 60 * time.Second
